@@ -1,4 +1,8 @@
 import GeoVerif.Model.Mask
+import GeoVerif.Proofs.LineState
+import GeoVerif.Model.Overloads
+import GeoVerif.Model.MaskInverse
+import GeoVerif.Proofs.MaskInverse
 /-!
 # C12 — output masks and line capabilities
 
@@ -132,32 +136,6 @@ example : written geod (geod_DISTANCE_IN ||| geod_AREA) geod_ALL false = [.lat2,
 /-! ### dataflow model of `GenPosition`: value independence of the mask -/
 
 set_option linter.unusedSimpArgs false
-
-theorem and_or_ne_zero_left (x a b : Nat) (h : (x &&& a != 0) = true) : (x &&& (a ||| b) != 0) = true := by
-  rw [Nat.and_or_distrib_left]
-  simp only [bne_iff_ne, ne_eq, Nat.or_eq_zero_iff, not_and] at h ⊢
-  intro h1; exact absurd h1 h
-
-theorem and_or_ne_zero_right (x a b : Nat) (h : (x &&& b != 0) = true) : (x &&& (a ||| b) != 0) = true := by
-  rw [Nat.or_comm]; exact and_or_ne_zero_left x b a h
-
-/-- a requested length output switches on the computation of `B12`/`AB1` -/
-theorem wantLen_of (e : Enum) (eff : Nat) (o : Out) (ho : o = .s12 ∨ o = .m12 ∨ o = .M12 ∨ o = .M21)
-    (h : want e eff o = true) : wantLen e eff = true := by
-  unfold want at h; unfold wantLen
-  rcases ho with rfl | rfl | rfl | rfl
-  · exact and_or_ne_zero_left _ _ _ (and_or_ne_zero_left _ _ _ h)
-  · exact and_or_ne_zero_left _ _ _ (and_or_ne_zero_right _ _ _ h)
-  · exact and_or_ne_zero_right _ _ _ h
-  · exact and_or_ne_zero_right _ _ _ h
-
-theorem wantRG_of (e : Enum) (eff : Nat) (o : Out) (ho : o = .m12 ∨ o = .M12 ∨ o = .M21)
-    (h : want e eff o = true) : wantRG e eff = true := by
-  unfold want at h; unfold wantRG
-  rcases ho with rfl | rfl | rfl
-  · exact and_or_ne_zero_left _ _ _ h
-  · exact and_or_ne_zero_right _ _ _ h
-  · exact and_or_ne_zero_right _ _ _ h
 
 /-- **series line**: the term assigned to output `o` is the same for any two reduced masks that both request `o`
     (and, for the longitude, agree on `LONG_UNROLL`, which by documentation changes the meaning of `lon2`) -/
@@ -474,5 +452,633 @@ theorem inverseLine_third_point (e : Enum) (he : e = geod ∨ e = geodx) (exact 
 theorem directLine_third_point (e : Enum) (exact bigf : Bool) (caps : Nat) (x : T) :
     (directLine e exact bigf caps false x).s13 = some x ∧ (directLine e exact bigf caps true x).a13 = some x :=
   ⟨rfl, rfl⟩
+
+
+/-! ### the third point of a line object: a state machine over arbitrary histories (`Model/LineState.lean`)
+
+The machine is the one the driver executes against the implementation (`linehist`): constructors, `SetDistance`, `SetArc`,
+`GenSetDistance`, `Distance()`, `Arc()`, `GenDistance`, around the abstract kernels `arcOf` / `distOf`.  All theorems hold
+for *every* kernel and every value type. -/
+
+section ThirdPoint
+open GeoVerif.LineState
+variable {α : Type}
+
+/-- **history independence**: after any history of setter calls, reader calls and copies, the line object is in the state
+    that a fresh line (same capabilities, third point never set) reaches from the *last* setter call alone; if no setter
+    was called the state is unchanged -/
+theorem history_independent (e : Enum) (K : Kern α) (st : St α) (h : List (Ev α)) :
+    (run e K st h).1 = fromLastSet e K st h ∧
+    (∀ o, lastSet h = some o → fromLastSet e K st h = step e K (fresh K st.caps) o) ∧
+    (lastSet h = none → fromLastSet e K st h = st) := by
+  refine ⟨run_state e K st h, ?_, ?_⟩
+  · intro o ho; unfold fromLastSet; rw [ho]; rfl
+  · intro ho; unfold fromLastSet; rw [ho]
+
+/-- every value a reader returns in the course of a history is the value it returns on the line that has seen only the
+    last setter call before it -/
+theorem reader_history_independent (e : Enum) (K : Kern α) (st : St α) (h1 h2 : List (Ev α)) (r : Rd) :
+    (run e K st (h1 ++ .get r :: h2)).2 =
+      (run e K st h1).2 ++ LineState.read K (fromLastSet e K st h1) r :: (run e K (fromLastSet e K st h1) h2).2 := by
+  rw [run_append]; simp only [run]; rw [run_state]
+
+/-- the capabilities of a line never change -/
+theorem caps_invariant (e : Enum) (K : Kern α) (st : St α) (h : List (Ev α)) : (run e K st h).1.caps = st.caps :=
+  run_caps e K st h
+
+theorem lineCaps_testBit (e : Enum) (he : e = geod ∨ e = geodx) (caps k : Nat) (hk : k = 10 ∨ k = 11) :
+    (lineCaps e caps).testBit k = caps.testBit k := by
+  unfold lineCaps
+  simp only [Nat.testBit_or]
+  have a : e.latitude.testBit k = false := by rcases he with rfl | rfl <;> rcases hk with rfl | rfl <;> decide
+  have b : e.azimuth.testBit k = false := by rcases he with rfl | rfl <;> rcases hk with rfl | rfl <;> decide
+  have c : e.longUnroll.testBit k = false := by rcases he with rfl | rfl <;> rcases hk with rfl | rfl <;> decide
+  simp [a, b, c]
+
+/-- the two guards in terms of the capability bits the user passed to the constructor: a line can turn a distance into
+    an arc iff it was given the `DISTANCE_IN` bit (bit 11), and `SetArc` obtains a distance iff it was given the
+    `DISTANCE` bit (bit 10); by arc every initialised line can locate the point -/
+theorem guards_spec (e : Enum) (he : e = geod ∨ e = geodx) (caps : Nat) :
+    canLocate e (lineCaps e caps) false = caps.testBit distanceInBit ∧
+    canLocate e (lineCaps e caps) true = true ∧
+    assignsS12 e (lineCaps e caps) = caps.testBit Out.s12.bit := by
+  have hne : (lineCaps e caps != 0) = true := by simpa using lineCaps_ne_zero e he caps
+  have h1 : e.outMask &&& e.distanceIn = 1 <<< distanceInBit := by rcases he with rfl | rfl <;> decide
+  have hloc : canLocate e (lineCaps e caps) true = true := by unfold canLocate; simp [hne]
+  refine ⟨?_, hloc, ?_⟩
+  · unfold canLocate
+    rw [h1, and_pow_ne_zero, hne, lineCaps_testBit e he caps distanceInBit (Or.inr rfl)]; simp
+  · unfold assignsS12
+    rw [hloc]
+    have h2 : e.distance &&& (lineCaps e caps &&& e.outMask) &&& e.distance = lineCaps e caps &&& (1 <<< Out.s12.bit) := by
+      have hd : e.distance &&& e.outMask = 1 <<< Out.s12.bit := by rcases he with rfl | rfl <;> decide
+      rw [← hd]
+      apply Nat.eq_of_testBit_eq; intro i
+      simp only [Nat.testBit_and]
+      cases e.distance.testBit i <;> cases (lineCaps e caps).testBit i <;> cases e.outMask.testBit i <;> rfl
+    rw [h2, and_pow_ne_zero, lineCaps_testBit e he caps Out.s12.bit (Or.inl rfl)]; simp
+
+/-- **`SetDistance`**: `Distance()` becomes the value given, whatever the capabilities; `Arc()` becomes the arc of that
+    distance if the line has `DISTANCE_IN` and NaN otherwise (`GenPosition` returns NaN before doing anything) -/
+theorem setDistance_spec (e : Enum) (he : e = geod ∨ e = geodx) (K : Kern α) (caps : Nat) (a0 s0 s : α) :
+    (LineState.setDistance e K ⟨lineCaps e caps, a0, s0⟩ s).s13 = s ∧
+    (LineState.setDistance e K ⟨lineCaps e caps, a0, s0⟩ s).a13 = (if caps.testBit distanceInBit then K.arcOf s else K.nan) := by
+  refine ⟨rfl, ?_⟩
+  simp only [LineState.setDistance, LineState.genPositionRet, (guards_spec e he caps).1]
+
+/-- **`SetArc`**: `Arc()` becomes the value given; `Distance()` becomes the distance of that arc if the line has the
+    `DISTANCE` capability and **NaN otherwise — never the distance of an earlier third point** -/
+theorem setArc_spec (e : Enum) (he : e = geod ∨ e = geodx) (K : Kern α) (caps : Nat) (a0 s0 a : α) :
+    (LineState.setArc e K ⟨lineCaps e caps, a0, s0⟩ a).a13 = a ∧
+    (LineState.setArc e K ⟨lineCaps e caps, a0, s0⟩ a).s13 = (if caps.testBit Out.s12.bit then K.distOf a else K.nan) := by
+  refine ⟨rfl, ?_⟩
+  simp only [LineState.setArc, genPositionS12, (guards_spec e he caps).2.2]
+
+/-- a default-constructed line: whatever is done to it, every reader returns NaN -/
+theorem default_line_reads_nan (e : Enum) (K : Kern α) (h : List (Ev α)) (r : Rd) :
+    LineState.read K (run e K (defaultLine K) h).1 r = K.nan := by
+  have hc : (run e K (defaultLine K) h).1.caps = 0 := by rw [run_caps]; rfl
+  cases r <;> simp [LineState.read, genDistance, St.init, hc]
+
+/-- a line made by a constructor is initialised: its readers return the stored third point -/
+theorem initialised_reads (e : Enum) (he : e = geod ∨ e = geodx) (K : Kern α) (caps : Nat) (a0 s0 : α) (h : List (Ev α)) :
+    let st := (run e K ⟨lineCaps e caps, a0, s0⟩ h).1
+    LineState.read K st .distance = st.s13 ∧ LineState.read K st .arc = st.a13 ∧
+    (∀ am, LineState.read K st (.genDistance am) = if am then st.a13 else st.s13) := by
+  intro st
+  have hc : st.caps = lineCaps e caps := run_caps e K _ h
+  have hi : st.init = true := by simp [St.init, hc, lineCaps_ne_zero e he caps]
+  refine ⟨?_, ?_, ?_⟩ <;> simp [LineState.read, genDistance, hi]
+
+/-- **`Distance()` / `Arc()` consistency.**  Let `posD` / `posA` be the point `GenPosition` reaches for a distance / for
+    an arc, and assume the kernel contract of the property ("a position specified by arc length and by the corresponding
+    distance is the same point"): `posA (arcOf s) = posD s` and `posD (distOf a) = posA a`.  Then after *any* history on a
+    line made by `Line(…, caps)`, whenever both `Arc()` and `Distance()` are numbers they address the same point. -/
+theorem third_point_consistent {β : Type} (e : Enum) (he : e = geod ∨ e = geodx) (K : Kern α) (posD posA : α → β)
+    (hDA : ∀ s, posA (K.arcOf s) = posD s) (hAD : ∀ a, posD (K.distOf a) = posA a)
+    (caps : Nat) (h : List (Ev α)) :
+    let st := (run e K (lineInit e K caps) h).1
+    st.a13 ≠ K.nan → st.s13 ≠ K.nan → posA st.a13 = posD st.s13 := by
+  intro st ha hs
+  have hst : st = fromLastSet e K (lineInit e K caps) h := run_state e K _ h
+  unfold fromLastSet at hst
+  have h2 : (⟨(lineInit e K caps).caps, K.nan, K.nan⟩ : St α) = ⟨lineCaps e caps, K.nan, K.nan⟩ := rfl
+  rw [h2] at hst
+  cases hl : lastSet h with
+  | none => rw [hl] at hst; rw [hst] at ha; exact absurd rfl ha
+  | some o =>
+    rw [hl] at hst
+    have hD : ∀ s, st = LineState.setDistance e K ⟨lineCaps e caps, K.nan, K.nan⟩ s → posA st.a13 = posD st.s13 := by
+      intro s h1
+      have := setDistance_spec e he K caps K.nan K.nan s
+      rw [h1] at ha ⊢
+      rw [this.2] at ha; rw [this.1, this.2]
+      by_cases hb : caps.testBit distanceInBit = true
+      · rw [if_pos hb]; exact hDA s
+      · rw [if_neg hb] at ha; exact absurd rfl ha
+    have hA : ∀ a, st = LineState.setArc e K ⟨lineCaps e caps, K.nan, K.nan⟩ a → posA st.a13 = posD st.s13 := by
+      intro a h1
+      have := setArc_spec e he K caps K.nan K.nan a
+      rw [h1] at hs ⊢
+      rw [this.2] at hs; rw [this.1, this.2]
+      by_cases hb : caps.testBit Out.s12.bit = true
+      · rw [if_pos hb]; exact (hAD a).symm
+      · rw [if_neg hb] at hs; exact absurd rfl hs
+    cases o with
+    | setDistance s => exact hD s hst
+    | setArc a => exact hA a hst
+    | genSetDistance am x => cases am with
+      | false => exact hD x hst
+      | true => exact hA x hst
+
+/-- non-vacuity of `third_point_consistent`: integers with `none` as NaN, `arcOf s = s + 1`, `distOf a = a − 1`,
+    `posD s = s`, `posA a = a − 1`; after `SetDistance 5; Arc(); SetArc 9` on a line with every capability both
+    components are numbers -/
+example :
+    let K : Kern (Option Int) := ⟨none, fun s => s.map (· + 1), fun a => a.map (· - 1)⟩
+    (∀ s, (fun a : Option Int => a.map (· - 1)) (K.arcOf s) = (fun s => s) s) ∧
+    (run geod K (lineInit geod K geod_ALL) [.set (.setDistance (some 5)), .get .arc, .set (.setArc (some 9))]) =
+      (⟨lineCaps geod geod_ALL, some 9, some 8⟩, [some 6]) := by
+  constructor
+  · intro s; cases s <;> simp
+  · decide
+
+/-! #### constructors -/
+
+/-- **`DirectLine(s12)`** (any requested capabilities; `DISTANCE_IN` is added): `Distance()` is `s12` — so
+    `Position(Distance())` is the very call `Position(s12)` that defines point 2 — and `Arc()` is the arc of `s12` -/
+theorem directLine_spec (e : Enum) (he : e = geod ∨ e = geodx) (K : Kern α) (caps : Nat) (s : α) :
+    (LineState.directLine e K caps s).s13 = s ∧ (LineState.directLine e K caps s).a13 = K.arcOf s ∧
+    (LineState.directLine e K caps s).caps = lineCaps e (caps ||| e.distanceIn) := by
+  have hb : (caps ||| e.distanceIn).testBit distanceInBit = true := by
+    have : e.distanceIn.testBit distanceInBit = true := by rcases he with rfl | rfl <;> decide
+    simp [Nat.testBit_or, this]
+  have := setDistance_spec e he K (caps ||| e.distanceIn) K.nan K.nan s
+  refine ⟨rfl, ?_, rfl⟩
+  show (LineState.setDistance e K ⟨lineCaps e (caps ||| e.distanceIn), K.nan, K.nan⟩ s).a13 = _
+  rw [this.2, hb]; rfl
+
+/-- **`ArcDirectLine(a12)`**: `Arc()` is `a12` (so `ArcPosition(Arc())` is the defining call), `Distance()` is the
+    distance of that arc when `DISTANCE` was requested and NaN otherwise; no capability is added -/
+theorem arcDirectLine_spec (e : Enum) (he : e = geod ∨ e = geodx) (K : Kern α) (caps : Nat) (a : α) :
+    (arcDirectLine e K caps a).a13 = a ∧
+    (arcDirectLine e K caps a).s13 = (if caps.testBit Out.s12.bit then K.distOf a else K.nan) ∧
+    (arcDirectLine e K caps a).caps = lineCaps e caps := by
+  have := setArc_spec e he K caps K.nan K.nan a
+  exact ⟨rfl, this.2, rfl⟩
+
+/-- **`InverseLine`**: `Arc()` is the `a12` of the inverse problem; if `DISTANCE_IN` was requested, `DISTANCE` is added
+    and `Distance()` is the distance of `a12`; if neither was requested `Distance()` is NaN -/
+theorem inverseLine_spec (e : Enum) (he : e = geod ∨ e = geodx) (K : Kern α) (caps : Nat) (a12 : α) :
+    (LineState.inverseLine e K caps a12).a13 = a12 ∧
+    (caps.testBit distanceInBit = true → (LineState.inverseLine e K caps a12).s13 = K.distOf a12 ∧
+        (LineState.inverseLine e K caps a12).caps = lineCaps e (caps ||| e.distance)) ∧
+    (caps.testBit distanceInBit = false → (LineState.inverseLine e K caps a12).s13 = (if caps.testBit Out.s12.bit then K.distOf a12 else K.nan) ∧
+        (LineState.inverseLine e K caps a12).caps = lineCaps e caps) := by
+  have h1 : e.outMask &&& e.distanceIn = 1 <<< distanceInBit := by rcases he with rfl | rfl <;> decide
+  refine ⟨by unfold LineState.inverseLine; rfl, ?_, ?_⟩
+  · intro h
+    have hc : (caps &&& (e.outMask &&& e.distanceIn) != 0) = true := by rw [h1, and_pow_ne_zero]; exact h
+    have hb : (caps ||| e.distance).testBit Out.s12.bit = true := by
+      have : e.distance.testBit Out.s12.bit = true := by rcases he with rfl | rfl <;> decide
+      simp [Nat.testBit_or, this]
+    have := setArc_spec e he K (caps ||| e.distance) K.nan K.nan a12
+    unfold LineState.inverseLine; simp only [hc, if_true]
+    refine ⟨?_, rfl⟩
+    show (LineState.setArc e K ⟨lineCaps e (caps ||| e.distance), K.nan, K.nan⟩ a12).s13 = _
+    rw [this.2, hb]; rfl
+  · intro h
+    have hc : (caps &&& (e.outMask &&& e.distanceIn) != 0) = false := by rw [h1, and_pow_ne_zero]; exact h
+    have := setArc_spec e he K caps K.nan K.nan a12
+    unfold LineState.inverseLine; simp only [hc]
+    exact ⟨this.2, rfl⟩
+
+/-- with the kernel contract, the stored third point of every line constructor reproduces the end point that defined the
+    line, by whichever of `Distance()` / `Arc()` is a number -/
+theorem constructors_reproduce_endpoint {β : Type} (e : Enum) (he : e = geod ∨ e = geodx) (K : Kern α) (posD posA : α → β)
+    (hDA : ∀ s, posA (K.arcOf s) = posD s) (hAD : ∀ a, posD (K.distOf a) = posA a) (caps : Nat) (x : α) :
+    posD (LineState.directLine e K caps x).s13 = posD x ∧ posA (LineState.directLine e K caps x).a13 = posD x ∧
+    posA (arcDirectLine e K caps x).a13 = posA x ∧
+    (caps.testBit Out.s12.bit = true → posD (arcDirectLine e K caps x).s13 = posA x) ∧
+    posA (LineState.inverseLine e K caps x).a13 = posA x ∧
+    (caps.testBit distanceInBit = true → posD (LineState.inverseLine e K caps x).s13 = posA x) := by
+  have d := directLine_spec e he K caps x
+  have a := arcDirectLine_spec e he K caps x
+  have i := inverseLine_spec e he K caps x
+  refine ⟨by rw [d.1], by rw [d.2.1]; exact hDA x, by rw [a.1], ?_, by rw [i.1], ?_⟩
+  · intro h; rw [a.2.1, h]; exact hAD x
+  · intro h; rw [(i.2.1 h).1]; exact hAD x
+
+/-- `Capabilities(testcaps)` is true iff every *output* bit (7–14) of `testcaps` is among the line's capabilities;
+    `LONG_UNROLL` and the `CAP_x` bits of `testcaps` are ignored -/
+theorem capabilities_spec (e : Enum) (he : e = geod ∨ e = geodx) (st : St α) (testcaps : Nat) :
+    capabilitiesTest e st testcaps = true ↔ ∀ k, 7 ≤ k → k ≤ 14 → testcaps.testBit k = true → st.caps.testBit k = true := by
+  have hall : e.outAll = 0x7F80 := by rcases he with rfl | rfl <;> decide
+  unfold capabilitiesTest
+  rw [beq_iff_eq, hall]
+  constructor
+  · intro h k h7 h14 ht
+    have := congrArg (fun n => n.testBit k) h
+    simp only [Nat.testBit_and] at this
+    have hk : (32640 : Nat).testBit k = true := by
+      have : k = 7 ∨ k = 8 ∨ k = 9 ∨ k = 10 ∨ k = 11 ∨ k = 12 ∨ k = 13 ∨ k = 14 := by omega
+      rcases this with rfl | rfl | rfl | rfl | rfl | rfl | rfl | rfl <;> decide
+    simp only [ht, hk, Bool.and_true, Bool.true_and] at this
+    simpa using this
+  · intro h
+    apply Nat.eq_of_testBit_eq; intro k
+    simp only [Nat.testBit_and]
+    by_cases hk : (32640 : Nat).testBit k = true
+    · have hr : 7 ≤ k ∧ k ≤ 14 := by
+        rcases Nat.lt_or_ge k 7 with h1 | h1
+        · have : k = 0 ∨ k = 1 ∨ k = 2 ∨ k = 3 ∨ k = 4 ∨ k = 5 ∨ k = 6 := by omega
+          rcases this with rfl | rfl | rfl | rfl | rfl | rfl | rfl <;> exact absurd hk (by decide)
+        · rcases Nat.lt_or_ge 14 k with h3 | h3
+          · have h2 : (32640 : Nat) < 2 ^ k :=
+              Nat.lt_of_lt_of_le (by decide : (32640 : Nat) < 2 ^ 15) (Nat.pow_le_pow_right (by decide) (by omega))
+            rw [Nat.testBit_lt_two_pow h2] at hk; exact absurd hk (by simp)
+          · exact ⟨h1, h3⟩
+      by_cases ht : testcaps.testBit k = true
+      · simp [ht, hk, h k hr.1 hr.2 ht]
+      · simp [ht]
+    · simp [hk]
+
+/-- `Capabilities()` of a constructed line: the capabilities requested plus `LATITUDE | AZIMUTH | LONG_UNROLL` -/
+theorem capabilities_of_line (e : Enum) (K : Kern α) (caps : Nat) (h : List (Ev α)) :
+    (run e K (lineInit e K caps) h).1.caps = caps ||| e.latitude ||| e.azimuth ||| e.longUnroll :=
+  run_caps e K _ h
+
+end ThirdPoint
+
+/-! ### the overload → mask table (extracted from the five headers on every run, `Gen/Overloads.lean`) -/
+
+/-- **every inline overload** of `Direct`, `ArcDirect`, `Inverse`, `Position`, `ArcPosition` of `Geodesic`, `GeodesicExact`,
+    `GeodesicLine`, `GeodesicLineExact`, `Rhumb`, `RhumbLine` (and the two pass-through wrappers of `Rhumb`) satisfies
+    `Overloads.rowOK`: the mask it passes to the general function is exactly the union of the flags of its reference
+    parameters (so: an output is requested iff the overload has a parameter for it; no `LONG_UNROLL`, no `DISTANCE_IN`);
+    every reference parameter is passed in the position of the quantity of the same name and every other position gets a
+    scratch local; the inputs are passed unchanged and in order with `arcmode = false` for `Direct` / `Position` and `true` for
+    `ArcDirect` / `ArcPosition`; the value of the general function is returned iff the overload returns `Math::real` -/
+theorem overload_table_ok : Gen.Overloads.table.all Overloads.rowOK = true := by decide
+
+/-- the `mask` enums of the three line classes repeat those of their solvers -/
+theorem line_enums_agree : Overloads.lineEnumsAgree = true := by decide
+
+/-- non-vacuity: the table is not empty, e.g. it has the 20 + 20 + 13 + 13 + 6 + 2 members the headers declare today -/
+example : Gen.Overloads.table.length = 74 ∧ Gen.Overloads.decls.length = 9 := by decide
+
+/-! ### `GenInverse`: the canonical `lengthmask` -/
+
+/-- **series `GenInverse`, value independent of the mask**: if the masks handed to `Lengths` are canonical at both masks,
+    an output requested under both is assigned the same term — on every branch (meridional, equatorial, short, Newton) -/
+theorem genInverseG_mask_independent (c : InvCfg) (hl : c.lengths = lengthsG) (wred : Nat) (br : InvBranch) (om1 om2 : Nat) (o : Out)
+    (h1 : want c.e (om1 &&& wred) o = true) (h2 : want c.e (om2 &&& wred) o = true)
+    (c1 : Canon c (om1 &&& wred)) (c2 : Canon c (om2 &&& wred)) :
+    genInverse c wred br om1 o = genInverse c wred br om2 o ∧ genInverseRet c wred br om1 = genInverseRet c wred br om2 := by
+  refine ⟨?_, invCoreG_a12 c hl br _ _ c1 c2⟩
+  cases o
+  case lat2 => rfl
+  case lon2 => rfl
+  case azi2 => simp only [genInverse, h1, h2]
+  case S12 => simp only [genInverse, h1, h2]
+  case s12 => simp only [genInverse, h1, h2, invCoreG_s12x c hl br _ _ c1 c2 h1 h2]
+  case m12 => simp only [genInverse, h1, h2, invCoreG_m12x c hl br _ _ c1 c2 h1 h2]
+  case M12 =>
+    have := invCoreG_M c hl br _ _ c1 c2 h1 h2
+    simp only [genInverse, h1, h2, this.1, this.2]
+  case M21 =>
+    have := invCoreG_M c hl br _ _ c1 c2 h1 h2
+    have h1' : want c.e (om1 &&& wred) .M21 = true := h1
+    simp only [genInverse, h1, h2, this.1, this.2]
+
+
+/-- **exact `GenInverse`, value independent of the mask** — `_partial`: on the meridional branch the statement needs the
+    hypothesis `hmer` that `DISTANCE` is among what `Lengths` is asked for (with both masks).  The full statement (the one
+    proved for the series solver, without `hmer`) is *false* for the current `GeodesicExact.cpp`: its meridional call passes
+    `outmask | REDUCEDLENGTH`, so without `DISTANCE` the local `s12x` is read uninitialised by the short-line test
+    (finding F67; see the `example` below). -/
+theorem genInverseX_mask_independent_partial (c : InvCfg) (hl : c.lengths = lengthsX) (wred : Nat) (br : InvBranch) (om1 om2 : Nat) (o : Out)
+    (h1 : want c.e (om1 &&& wred) o = true) (h2 : want c.e (om2 &&& wred) o = true)
+    (c1 : CanonX c (om1 &&& wred)) (c2 : CanonX c (om2 &&& wred))
+    (hmer : br = .meridian → want c.e (c.mer (om1 &&& wred) &&& c.red) .s12 = true ∧ want c.e (c.mer (om2 &&& wred) &&& c.red) .s12 = true) :
+    genInverse c wred br om1 o = genInverse c wred br om2 o ∧ genInverseRet c wred br om1 = genInverseRet c wred br om2 := by
+  obtain ⟨ns1, nm1, nG1, mG1, mm1⟩ := c1
+  obtain ⟨ns2, nm2, nG2, mG2, mm2⟩ := c2
+  have hm := lengthsX_m12b c.e (c.mer (om1 &&& wred) &&& c.red) (c.mer (om2 &&& wred) &&& c.red) (.sym "_n|E") mm1 mm2
+  have hmerS : br = .meridian → (lengthsX c.e (c.mer (om1 &&& wred) &&& c.red) (.sym "_n|E")).s12b = (lengthsX c.e (c.mer (om2 &&& wred) &&& c.red) (.sym "_n|E")).s12b :=
+    fun hb => lengthsX_s12b c.e _ _ _ (hmer hb).1 (hmer hb).2
+  have hM : want c.e (om1 &&& wred) .M12 = true → want c.e (om2 &&& wred) .M12 = true →
+      (invCore c br (om1 &&& wred)).M12 = (invCore c br (om2 &&& wred)).M12 ∧ (invCore c br (om1 &&& wred)).M21 = (invCore c br (om2 &&& wred)).M21 := by
+    intro g1 g2
+    have a := lengthsX_M c.e (c.newt (om1 &&& wred) &&& c.red) (c.newt (om2 &&& wred) &&& c.red) (.sym "eps|E") (by rw [nG1]; exact g1) (by rw [nG2]; exact g2)
+    have b := lengthsX_M c.e (c.mer (om1 &&& wred) &&& c.red) (c.mer (om2 &&& wred) &&& c.red) (.sym "_n|E") (by rw [mG1]; exact g1) (by rw [mG2]; exact g2)
+    cases br <;> simp only [invCore, hl, a.1, a.2, b.1, b.2, g1, g2, and_self]
+  refine ⟨?_, ?_⟩
+  · cases o
+    case lat2 => rfl
+    case lon2 => rfl
+    case azi2 => simp only [genInverse, h1, h2]
+    case S12 => simp only [genInverse, h1, h2]
+    case s12 =>
+      have hn := lengthsX_s12b c.e (c.newt (om1 &&& wred) &&& c.red) (c.newt (om2 &&& wred) &&& c.red) (.sym "eps|E") (ns1 h1) (ns2 h2)
+      cases br
+      case meridian => simp only [genInverse, h1, h2, invCore, hl, hm, hmerS rfl]
+      all_goals simp only [genInverse, h1, h2, invCore, hl, hn]
+    case m12 =>
+      have hn := lengthsX_m12b c.e (c.newt (om1 &&& wred) &&& c.red) (c.newt (om2 &&& wred) &&& c.red) (.sym "eps|E") (nm1 h1) (nm2 h2)
+      cases br
+      case meridian => simp only [genInverse, h1, h2, invCore, hl, hm, hmerS rfl]
+      all_goals simp only [genInverse, h1, h2, invCore, hl, hn]
+    case M12 => have := hM h1 h2; simp only [genInverse, h1, h2, this.1, this.2]
+    case M21 => have := hM h1 h2; simp only [genInverse, h1, h2, this.1, this.2]
+  · cases br
+    case meridian => simp only [genInverseRet, invCore, hl, hm, hmerS rfl]
+    all_goals simp only [genInverseRet, invCore]
+
+/-- requested ⇔ assigned, for both solvers: with canonical masks the outputs `GenInverse` assigns are exactly those of the
+    executed model `writtenInverse` (which the driver compares with the implementation for every mask) -/
+theorem genInverse_isSome_iff (c : InvCfg) (hl : c.lengths = lengthsG ∨ c.lengths = lengthsX) (br : InvBranch) (om : Nat) (o : Out)
+    (cx : CanonX c (om &&& c.e.outMask)) :
+    (genInverse c c.e.outMask br om o).isSome = true ↔ o ∈ writtenInverse c.e om := by
+  obtain ⟨ns, nm, nG, mG, mm⟩ := cx
+  have hw : o ∈ writtenInverse c.e om ↔ (o ≠ .lat2 ∧ o ≠ .lon2) ∧ want c.e (om &&& c.e.outMask) o = true := by
+    unfold writtenInverse want
+    cases o <;> simp [List.mem_filter]
+  rw [hw]
+  by_cases h : want c.e (om &&& c.e.outMask) o = true
+  · have hG : o = .M12 ∨ o = .M21 → (invCore c br (om &&& c.e.outMask)).M12.isSome = true ∧ (invCore c br (om &&& c.e.outMask)).M21.isSome = true := by
+      intro ho
+      have g : want c.e (om &&& c.e.outMask) .M12 = true := by rcases ho with rfl | rfl <;> exact h
+      have g1 : want c.e (c.newt (om &&& c.e.outMask) &&& c.red) .M12 = true := by rw [nG]; exact g
+      have g2 : want c.e (c.mer (om &&& c.e.outMask) &&& c.red) .M12 = true := by rw [mG]; exact g
+      have g1' : want c.e (c.newt (om &&& c.e.outMask) &&& c.red) .M21 = true := g1
+      have g2' : want c.e (c.mer (om &&& c.e.outMask) &&& c.red) .M21 = true := g2
+      have r1 := wantRG_of c.e _ .M12 (Or.inr (Or.inl rfl)) g1
+      have r2 := wantRG_of c.e _ .M12 (Or.inr (Or.inl rfl)) g2
+      rcases hl with hl | hl <;> cases br <;> simp [invCore, hl, lengthsG, lengthsX, g, g1, g2, g1', g2', r1, r2]
+    cases o
+    case lat2 => simp [genInverse]
+    case lon2 => simp [genInverse]
+    case azi2 => simp [genInverse, h]
+    case S12 => simp [genInverse, h]
+    case s12 => simp [genInverse, h]
+    case m12 => simp [genInverse, h]
+    case M12 =>
+      have := hG (Or.inl rfl)
+      obtain ⟨a, ha⟩ := Option.isSome_iff_exists.mp this.1
+      obtain ⟨b, hb⟩ := Option.isSome_iff_exists.mp this.2
+      simp [genInverse, h, ha, hb]
+    case M21 =>
+      have := hG (Or.inr rfl)
+      obtain ⟨a, ha⟩ := Option.isSome_iff_exists.mp this.1
+      obtain ⟨b, hb⟩ := Option.isSome_iff_exists.mp this.2
+      simp [genInverse, h, ha, hb]
+  · have h' : want c.e (om &&& c.e.outMask) o = false := by simpa using h
+    have hG : o = .M12 ∨ o = .M21 → (invCore c br (om &&& c.e.outMask)).M12 = none ∧ (invCore c br (om &&& c.e.outMask)).M21 = none := by
+      intro ho
+      have g : want c.e (om &&& c.e.outMask) .M12 = false := by rcases ho with rfl | rfl <;> exact h'
+      have g1 : want c.e (c.newt (om &&& c.e.outMask) &&& c.red) .M12 = false := by rw [nG]; exact g
+      have g2 : want c.e (c.mer (om &&& c.e.outMask) &&& c.red) .M12 = false := by rw [mG]; exact g
+      have g1' : want c.e (c.newt (om &&& c.e.outMask) &&& c.red) .M21 = false := g1
+      have g2' : want c.e (c.mer (om &&& c.e.outMask) &&& c.red) .M21 = false := g2
+      rcases hl with hl | hl <;> cases br <;> simp [invCore, hl, lengthsG, lengthsX, g, g1, g2, g1', g2']
+    cases o
+    case lat2 => simp [genInverse]
+    case lon2 => simp [genInverse]
+    case azi2 => simp [genInverse, h']
+    case S12 => simp [genInverse, h']
+    case s12 => simp [genInverse, h']
+    case m12 => simp [genInverse, h']
+    case M12 => simp [genInverse, h', (hG (Or.inl rfl)).1]
+    case M21 => simp [genInverse, h', (hG (Or.inr rfl)).2]
+
+
+/-! #### the masks extracted from the current sources are canonical (`Gen/LengthMask.lean`, re-read on every run) -/
+open Gen.LengthMask in
+/-- **series**: for every union of the documented flag constants (all 2⁹ selections), the masks `Geodesic::GenInverse`
+    hands to `Lengths` — `outmask | DISTANCE | REDUCEDLENGTH` on the meridional branch and the canonical `lengthmask` after
+    Newton's method, as extracted from `Geodesic.cpp` — are canonical -/
+theorem geod_lengthmask_canonical : ∀ sel < 512, Canon cfgG (buildMask geod sel &&& geod_wrapperReduce) := by decide +kernel
+
+open Gen.LengthMask in
+/-- **exact**: the masks extracted from `GeodesicExact.cpp` satisfy the conditions the exact `Lengths` needs -/
+theorem geodx_lengthmask_canonical : ∀ sel < 512, CanonX cfgX (buildMask geodx sel &&& geodx_wrapperReduce) := by decide +kernel
+
+open Gen.LengthMask in
+theorem geodx_meridian_distance : ∀ sel < 512, sel.testBit 3 = true →
+    want geodx (geodx_meridian (buildMask geodx sel &&& geodx_wrapperReduce) &&& geodx_lengthsReduce) .s12 = true := by decide +kernel
+
+open Gen.LengthMask in
+/-- since the repair dc6d194 (finding F67) the meridional `Lengths` call of `GeodesicExact::GenInverse`, as extracted from the
+    current `GeodesicExact.cpp`, asks for `DISTANCE` under **every** mask (this obligation breaks again if the repair is undone) -/
+theorem geodx_meridian_distance_always : ∀ sel < 512,
+    want geodx (geodx_meridian (buildMask geodx sel &&& geodx_wrapperReduce) &&& geodx_lengthsReduce) .s12 = true := by decide +kernel
+
+open Gen.LengthMask in
+/-- **`Geodesic::GenInverse`: the value of every output, and the returned `a12`, is independent of the mask** — all 2⁷
+    output masks, with and without `LONG_UNROLL` and `DISTANCE_IN` (which `GenInverse` ignores), every branch -/
+theorem geod_inverse_value_mask_independent (sel1 sel2 : Nat) (hs1 : sel1 < 512) (hs2 : sel2 < 512) (br : InvBranch) (o : Out)
+    (w1 : o ∈ writtenInverse geod (buildMask geod sel1)) (w2 : o ∈ writtenInverse geod (buildMask geod sel2)) :
+    genInverse cfgG geod_wrapperReduce br (buildMask geod sel1) o = genInverse cfgG geod_wrapperReduce br (buildMask geod sel2) o ∧
+    genInverseRet cfgG geod_wrapperReduce br (buildMask geod sel1) = genInverseRet cfgG geod_wrapperReduce br (buildMask geod sel2) :=
+  genInverseG_mask_independent cfgG rfl _ br _ _ o ((mem_writtenInverse_iff geod _ o).mp w1).2 ((mem_writtenInverse_iff geod _ o).mp w2).2
+    (geod_lengthmask_canonical sel1 hs1) (geod_lengthmask_canonical sel2 hs2)
+
+open Gen.LengthMask in
+/-- the returned arc length of the series `GenInverse` does not depend on the mask at all (nothing need be requested) -/
+theorem geod_inverse_a12_mask_independent (sel1 sel2 : Nat) (hs1 : sel1 < 512) (hs2 : sel2 < 512) (br : InvBranch) :
+    genInverseRet cfgG geod_wrapperReduce br (buildMask geod sel1) = genInverseRet cfgG geod_wrapperReduce br (buildMask geod sel2) :=
+  invCoreG_a12 cfgG rfl br _ _ (geod_lengthmask_canonical sel1 hs1) (geod_lengthmask_canonical sel2 hs2)
+
+open Gen.LengthMask in
+/-- **`GeodesicExact::GenInverse`** — `_partial`: on the meridional branch only for masks that contain `DISTANCE`
+    (bit 3 of the selection).  Full statement = the one above for the series solver; it fails for the current source on the
+    meridional branch without `DISTANCE` (finding F67: `s12x` read uninitialised). -/
+theorem geodx_inverse_value_mask_independent_partial (sel1 sel2 : Nat) (hs1 : sel1 < 512) (hs2 : sel2 < 512) (br : InvBranch) (o : Out)
+    (w1 : o ∈ writtenInverse geodx (buildMask geodx sel1)) (w2 : o ∈ writtenInverse geodx (buildMask geodx sel2))
+    (hmer : br = .meridian → sel1.testBit 3 = true ∧ sel2.testBit 3 = true) :
+    genInverse cfgX geodx_wrapperReduce br (buildMask geodx sel1) o = genInverse cfgX geodx_wrapperReduce br (buildMask geodx sel2) o ∧
+    genInverseRet cfgX geodx_wrapperReduce br (buildMask geodx sel1) = genInverseRet cfgX geodx_wrapperReduce br (buildMask geodx sel2) :=
+  genInverseX_mask_independent_partial cfgX rfl _ br _ _ o ((mem_writtenInverse_iff geodx _ o).mp w1).2 ((mem_writtenInverse_iff geodx _ o).mp w2).2
+    (geodx_lengthmask_canonical sel1 hs1) (geodx_lengthmask_canonical sel2 hs2)
+    (fun hb => ⟨geodx_meridian_distance sel1 hs1 (hmer hb).1, geodx_meridian_distance sel2 hs2 (hmer hb).2⟩)
+
+open Gen.LengthMask in
+/-- **`GeodesicExact::GenInverse`: the value of every output, and the returned `a12`, is independent of the mask** — the full
+    statement (no restriction on the meridional branch), for the source as repaired by dc6d194: the hypothesis of the
+    `_partial` version is discharged by `geodx_meridian_distance_always`, an obligation over the masks re-extracted from
+    `GeodesicExact.cpp` on every run -/
+theorem geodx_inverse_value_mask_independent (sel1 sel2 : Nat) (hs1 : sel1 < 512) (hs2 : sel2 < 512) (br : InvBranch) (o : Out)
+    (w1 : o ∈ writtenInverse geodx (buildMask geodx sel1)) (w2 : o ∈ writtenInverse geodx (buildMask geodx sel2)) :
+    genInverse cfgX geodx_wrapperReduce br (buildMask geodx sel1) o = genInverse cfgX geodx_wrapperReduce br (buildMask geodx sel2) o ∧
+    genInverseRet cfgX geodx_wrapperReduce br (buildMask geodx sel1) = genInverseRet cfgX geodx_wrapperReduce br (buildMask geodx sel2) :=
+  genInverseX_mask_independent_partial cfgX rfl _ br _ _ o ((mem_writtenInverse_iff geodx _ o).mp w1).2 ((mem_writtenInverse_iff geodx _ o).mp w2).2
+    (geodx_lengthmask_canonical sel1 hs1) (geodx_lengthmask_canonical sel2 hs2)
+    (fun _ => ⟨geodx_meridian_distance_always sel1 hs1, geodx_meridian_distance_always sel2 hs2⟩)
+
+open Gen.LengthMask in
+/-- requested ⇔ assigned for the extracted masks, both solvers, every flag union, every branch -/
+theorem inverse_written_spec (sel : Nat) (hs : sel < 512) (br : InvBranch) (o : Out) :
+    ((genInverse cfgG geod_wrapperReduce br (buildMask geod sel) o).isSome = true ↔ o ∈ writtenInverse geod (buildMask geod sel)) ∧
+    ((genInverse cfgX geodx_wrapperReduce br (buildMask geodx sel) o).isSome = true ↔ o ∈ writtenInverse geodx (buildMask geodx sel)) := by
+  have a := geod_lengthmask_canonical sel hs
+  obtain ⟨a1, a2, a3, _, a5, a6, _⟩ := a
+  exact ⟨genInverse_isSome_iff cfgG (Or.inl rfl) br _ o ⟨a1, a2, a3, a5, a6⟩, genInverse_isSome_iff cfgX (Or.inr rfl) br _ o (geodx_lengthmask_canonical sel hs)⟩
+
+/-- non-vacuity: `m12` is written both for `REDUCEDLENGTH` alone (selection 32) and for everything (selection 0xEF), and
+    the Newton-branch term is the one formed with the `DISTANCE` series although selection 32 does not request `DISTANCE` -/
+example : Out.m12 ∈ writtenInverse geod (buildMask geod 32) ∧ Out.m12 ∈ writtenInverse geod (buildMask geod 0xEF) ∧
+    want geod (buildMask geod 32 &&& Gen.LengthMask.geod_wrapperReduce) .s12 = false ∧
+    want geod (Gen.LengthMask.geod_newton (buildMask geod 32 &&& Gen.LengthMask.geod_wrapperReduce) &&& Gen.LengthMask.geod_lengthsReduce) .s12 = true := by decide
+
+/-! ### rhumb: `RhumbLine::GenPosition` (= `Rhumb::GenDirect`) and `Rhumb::GenInverse` -/
+
+/-- the flag that governs an output of the rhumb solvers -/
+def rhumbFlag : Out → Nat
+  | .lat2 => rhumb_LATITUDE | .lon2 => rhumb_LONGITUDE | .azi2 => rhumb_AZIMUTH | .s12 => rhumb_DISTANCE | .S12 => rhumb_AREA | _ => 0
+
+/-- **rhumb direct, value independent of the mask**: two masks that both request `o` assign it the same term — for `lon2`
+    provided they agree on `LONG_UNROLL` (which changes its documented meaning); in particular **`S12` does not depend on
+    `LONG_UNROLL`** nor on whether `lat2` / `lon2` are requested (it is formed from the longitude difference before that is
+    reduced or added to `lon1`), on either side of the pole -/
+theorem rhumbPosition_mask_independent (m1 m2 : Nat) (pole : Bool) (o : Out)
+    (h1 : (m1 &&& rhumbFlag o != 0) = true) (h2 : (m2 &&& rhumbFlag o != 0) = true)
+    (hu : o = .lon2 → (m1 &&& rhumb_LONG_UNROLL != 0) = (m2 &&& rhumb_LONG_UNROLL != 0)) :
+    rhumbPosition m1 pole o = rhumbPosition m2 pole o := by
+  cases o
+  case lat2 => simp only [rhumbFlag] at h1 h2; simp only [rhumbPosition, h1, h2]
+  case lon2 => simp only [rhumbFlag] at h1 h2; simp only [rhumbPosition, h1, h2, hu rfl]
+  case S12 => simp only [rhumbFlag] at h1 h2; simp only [rhumbPosition, h1, h2]
+  all_goals rfl
+
+/-- requested ⇔ assigned: the outputs `RhumbLine::GenPosition` assigns are those of the executed model
+    `writtenRhumbDirect`; beyond the pole `lon2` and `S12` are *assigned* NaN, not left untouched -/
+theorem rhumbPosition_isSome_iff (m : Nat) (pole : Bool) (o : Out) :
+    (rhumbPosition m pole o).isSome = true ↔ o ∈ writtenRhumbDirect m := by
+  unfold writtenRhumbDirect rhumbPosition
+  by_cases a : m &&& rhumb_LATITUDE = 0 <;> by_cases b : m &&& rhumb_LONGITUDE = 0 <;>
+    by_cases c : m &&& rhumb_AREA = 0 <;> cases o <;> simp [a, b, c]
+
+theorem rhumbInverse_mask_independent (m1 m2 : Nat) (o : Out)
+    (h1 : (m1 &&& rhumbFlag o != 0) = true) (h2 : (m2 &&& rhumbFlag o != 0) = true) :
+    rhumbInverse m1 o = rhumbInverse m2 o := by
+  cases o
+  case azi2 => simp only [rhumbFlag] at h1 h2; simp only [rhumbInverse, h1, h2]
+  case s12 => simp only [rhumbFlag] at h1 h2; simp only [rhumbInverse, h1, h2]
+  case S12 => simp only [rhumbFlag] at h1 h2; simp only [rhumbInverse, h1, h2]
+  all_goals rfl
+
+theorem rhumbInverse_isSome_iff (m : Nat) (o : Out) :
+    (rhumbInverse m o).isSome = true ↔ o ∈ writtenRhumbInverse m := by
+  unfold writtenRhumbInverse rhumbInverse
+  by_cases a : m &&& rhumb_DISTANCE = 0 <;> by_cases b : m &&& rhumb_AZIMUTH = 0 <;>
+    by_cases c : m &&& rhumb_AREA = 0 <;> cases o <;> simp [a, b, c]
+
+/-- non-vacuity: with and without `LONG_UNROLL`, `S12` is requested -/
+example : ((rhumb_AREA ||| rhumb_LONG_UNROLL) &&& rhumbFlag .S12 != 0) = true ∧ (rhumb_ALL &&& rhumbFlag .S12 != 0) = true := by decide
+
+
+/-- **no unassigned local is read**: with canonical masks, the term the series `GenInverse` assigns to a requested output,
+    and the `a12` it returns, mention no local variable or coefficient array that was not assigned on the way -/
+theorem genInverseG_no_uninit (c : InvCfg) (hl : c.lengths = lengthsG) (wred : Nat) (br : InvBranch) (om : Nat) (o : Out)
+    (h : want c.e (om &&& wred) o = true) (cn : Canon c (om &&& wred)) :
+    (genInverse c wred br om o).all (fun t => !t.hasUninit) = true ∧ (genInverseRet c wred br om).hasUninit = false := by
+  obtain ⟨ns, nm, nG, nJ, mG, mm, ms⟩ := cn
+  have mL := wantLen_of c.e _ .s12 (Or.inl rfl) ms
+  have mR := wantRG_of c.e _ .m12 (Or.inl rfl) mm
+  constructor
+  · cases o
+    case lat2 => simp [genInverse]
+    case lon2 => simp [genInverse]
+    case azi2 => simp [genInverse, h, T.hasUninit, T.anyUninit]
+    case S12 => simp [genInverse, h, T.hasUninit, T.anyUninit]
+    case s12 =>
+      have n1 := ns h
+      have nL := wantLen_of c.e _ .s12 (Or.inl rfl) n1
+      cases br <;> simp [genInverse, h, invCore, hl, lengthsG, orUninit, lenArgs, ms, mm, mL, mR, n1, nL, T.hasUninit, T.anyUninit]
+    case m12 =>
+      have n2 := nm h
+      have nR := wantRG_of c.e _ .m12 (Or.inl rfl) n2
+      have n1 := nJ nR
+      have nL := wantLen_of c.e _ .s12 (Or.inl rfl) n1
+      cases br <;> simp [genInverse, h, invCore, hl, lengthsG, orUninit, lenArgs, ms, mm, mL, mR, n1, n2, nL, nR, T.hasUninit, T.anyUninit]
+    case M12 =>
+      have g1 : want c.e (c.newt (om &&& wred) &&& c.red) .M12 = true := by rw [nG]; exact h
+      have g2 : want c.e (c.mer (om &&& wred) &&& c.red) .M12 = true := by rw [mG]; exact h
+      have g1' : want c.e (c.newt (om &&& wred) &&& c.red) .M21 = true := g1
+      have g2' : want c.e (c.mer (om &&& wred) &&& c.red) .M21 = true := g2
+      have nR := wantRG_of c.e _ .M12 (Or.inr (Or.inl rfl)) g1
+      have n1 := nJ nR
+      have nL := wantLen_of c.e _ .s12 (Or.inl rfl) n1
+      cases br <;> simp [genInverse, h, invCore, hl, lengthsG, orUninit, lenArgs, ms, mm, mL, mR, n1, nL, nR, g1, g2, g1', g2', T.hasUninit, T.anyUninit]
+    case M21 =>
+      have h' : want c.e (om &&& wred) .M12 = true := h
+      have g1 : want c.e (c.newt (om &&& wred) &&& c.red) .M12 = true := by rw [nG]; exact h
+      have g2 : want c.e (c.mer (om &&& wred) &&& c.red) .M12 = true := by rw [mG]; exact h
+      have g1' : want c.e (c.newt (om &&& wred) &&& c.red) .M21 = true := g1
+      have g2' : want c.e (c.mer (om &&& wred) &&& c.red) .M21 = true := g2
+      have nR := wantRG_of c.e _ .M12 (Or.inr (Or.inl rfl)) g1
+      have n1 := nJ nR
+      have nL := wantLen_of c.e _ .s12 (Or.inl rfl) n1
+      cases br <;> simp [genInverse, h, h', invCore, hl, lengthsG, orUninit, lenArgs, ms, mm, mL, mR, n1, nL, nR, g1, g2, g1', g2', T.hasUninit, T.anyUninit]
+  · cases br <;> simp [genInverseRet, invCore, hl, lengthsG, orUninit, lenArgs, ms, mm, mL, mR, T.hasUninit, T.anyUninit]
+
+open Gen.LengthMask in
+/-- for the masks extracted from `Geodesic.cpp`: every flag union, every branch, every requested output -/
+theorem geod_inverse_no_uninit (sel : Nat) (hs : sel < 512) (br : InvBranch) (o : Out) (w : o ∈ writtenInverse geod (buildMask geod sel)) :
+    (genInverse cfgG geod_wrapperReduce br (buildMask geod sel) o).all (fun t => !t.hasUninit) = true ∧
+    (genInverseRet cfgG geod_wrapperReduce br (buildMask geod sel)).hasUninit = false :=
+  genInverseG_no_uninit cfgG rfl _ br _ o ((mem_writtenInverse_iff geod _ o).mp w).2 (geod_lengthmask_canonical sel hs)
+
+
+/-! ### the two models of the third point agree -/
+
+/-- the kernels of the state machine read off the symbolic dataflow model of `GenPosition` (values are `Option T`,
+    `none` = NaN): `arcOf s` = the returned `a12` of `GenPosition(false, s, 0u, …)`, `distOf a` = the term assigned to
+    `s12` by `GenPosition(true, a, DISTANCE, …)` -/
+def symKern (e : Enum) (exact : Bool) (caps : Nat) (bigf : Bool) : LineState.Kern (Option T) :=
+  { nan := none
+    arcOf := fun s => s.bind fun t => Mask.genPositionRet e exact caps false bigf t
+    distOf := fun a => a.bind fun t => genPosition e exact caps e.distance true bigf t .s12 }
+
+/-- **the executed state machine and the symbolic dataflow model describe the same `SetDistance` / `SetArc`**: run with the
+    symbolic kernels, the state machine's third point is the one `Mask.setDistance` / `Mask.setArc` (the model of the
+    theorems `third_point_distance`, `third_point_arc`, `inverseLine_third_point`) produce -/
+theorem state_machine_matches_dataflow (e : Enum) (he : e = geod ∨ e = geodx) (exact bigf : Bool) (caps : Nat) (a0 s0 : Option T) (x : T) :
+    let K := symKern e exact caps bigf
+    let L : Mask.Line := { exact := exact, caps := caps }
+    (LineState.setDistance e K ⟨lineCaps e caps, a0, s0⟩ (some x)).s13 = (Mask.setDistance e bigf L x).s13 ∧
+    (LineState.setDistance e K ⟨lineCaps e caps, a0, s0⟩ (some x)).a13 = (Mask.setDistance e bigf L x).a13 ∧
+    (LineState.setArc e K ⟨lineCaps e caps, a0, s0⟩ (some x)).a13 = (Mask.setArc e bigf L x).a13 ∧
+    (LineState.setArc e K ⟨lineCaps e caps, a0, s0⟩ (some x)).s13 = (Mask.setArc e bigf L x).s13 := by
+  intro K L
+  have g := guards_spec e he caps
+  have hl : locatable e caps false = caps.testBit distanceInBit := by
+    have := locatable_iff e he caps false
+    cases h : locatable e caps false <;> cases h2 : caps.testBit distanceInBit <;> simp_all
+  refine ⟨rfl, ?_, rfl, ?_⟩
+  · show LineState.genPositionRet e K (lineCaps e caps) (some x) = Mask.genPositionRet e exact caps false bigf x
+    unfold LineState.genPositionRet
+    rw [g.1]
+    by_cases hb : caps.testBit distanceInBit = true
+    · rw [if_pos hb]; rfl
+    · rw [if_neg hb]
+      have : locatable e caps false = false := by rw [hl]; simpa using hb
+      simp [Mask.genPositionRet, this]; rfl
+  · show LineState.genPositionS12 e K (lineCaps e caps) (some x) none = genPosition e exact caps e.distance true bigf x .s12
+    unfold LineState.genPositionS12
+    rw [g.2.2]
+    by_cases hb : caps.testBit Out.s12.bit = true
+    · rw [if_pos hb]; rfl
+    · rw [if_neg hb]
+      have hw : Out.s12 ∉ written e caps e.distance true := by
+        rw [written_spec e he]; intro hh
+        rw [lineCaps_testBit e he caps Out.s12.bit (Or.inl rfl)] at hh; exact hb hh.2.2
+      have h2 : ¬ ((genPosition e exact caps e.distance true bigf x .s12).isSome = true) :=
+        fun hh => hw ((genPosition_isSome_iff e exact caps e.distance true bigf x .s12).mp hh)
+      cases h3 : genPosition e exact caps e.distance true bigf x .s12 with
+      | none => rfl
+      | some t => rw [h3] at h2; simp at h2
+
 
 end GeoVerif.Props.C12
